@@ -76,9 +76,15 @@ def run(ctx, out):
             q["0625"].append([P.completion()])
             cases.append((G.default_cfg(max=2), ["new"] + calls, q, None, None))
     ops, impl = run_histories(ctx, out, cases, "idle clean-up")
+    # the same against a SLOW but talking terminal (14 virtual seconds before every packet — the whole clean-up then lasts minutes,
+    # every single packet stays below the 60 s packet time-out): the clean-up must run to its end and report its outcome all the same
+    slow = ctx.rng.sample(cases, min(len(cases), 400 if ctx.search_tier == "thorough" else 120))
+    # (14 s is the largest pause the 60 s guard around the four-packet connection handshake allows: 4 x 14 = 56 s)
+    run_histories(ctx, out, slow, "idle clean-up, slow terminal (14 s before every packet)", gap=14)
+    out.count("slow-terminal", len(slow))
     # explicit shape oracle on the implementation's traffic: end-of-day (06 50) never while another token is open
     out.rule = ("histories begin..commit/cancel over 1 and 2 tokens x outcome of the finishing exchange (completed, aborted, commit completed without status information) x dangling pre-authorisation reported by the pending query "
                 f"(absent, FFFF, 17, 9999, and the receipt numbers 11 / 12 of the transactions of the history itself) x reversal outcome x end-of-day outcome (completion, completion after intermediate packets, {len(list(codes))} abort codes incl. A0). The client must send exactly: finishing request, "
                 "pending query 06 23 FFFF, reversal 06 25 of the reported receipt, 06 50 — each only after the previous one succeeded, nothing of it while a token is open — and report A0 as success and any other refusal as error. "
-                "Two tokens open and the first finishing exchange refused with each of the 256 abort codes: no clean-up before the second token is finished. implementation = model = specification")
+                "A sample of all that against a slow terminal (14 s before every packet: the clean-up lasts minutes, no packet is late). Two tokens open and the first finishing exchange refused with each of the 256 abort codes: no clean-up before the second token is finished. implementation = model = specification")
     out.samples = [ops[3][:500], {"op": ops[-1][:200], "impl": impl[-1][:300]}]
